@@ -594,6 +594,16 @@ func genRule(r *rng, u *universe, o ruleOpts) *grule {
 			g.notDstSets = []int{1 + r.intn(nNetSets)}
 		}
 		if o.ood {
+			if r.chance(12) {
+				// a negated CIDR list of the OTHER address family: Felix's dataplanes take the rule to be of that family,
+				// the checker reads it as "not in it" (outside the common fragment)
+				other := map[int]string{4: "fd00:77::/64", 6: "10.77.0.0/16"}[u.ver]
+				if r.chance(50) {
+					g.notSrcNets = []cidr{mkCIDR(other)}
+				} else {
+					g.notDstNets = []cidr{mkCIDR(other)}
+				}
+			}
 			if r.chance(15) && (g.proto == 6 || g.proto == 17) {
 				g.dstNamed = []int{nNetSets + 1 + r.intn(nPortSets)}
 			}
